@@ -469,3 +469,51 @@ def judge_delivery(w: World, prop: str, sut: 'ServerUnderTest', text: str, check
     if 'leak' in checks:
         check_no_leak(w, prop, body, ctx)
     return outcome, doc
+
+
+def max_nesting(text: str) -> int:
+    """Maximum bracket depth outside string literals (an upper bound on container nesting)."""
+    depth = best = 0
+    in_str = esc = False
+    for c in text:
+        if in_str:
+            if esc:
+                esc = False
+            elif c == '\\':
+                esc = True
+            elif c == '"':
+                in_str = False
+        elif c == '"':
+            in_str = True
+        elif c in '[{':
+            depth += 1
+            best = max(best, depth)
+        elif c in ']}':
+            depth = max(0, depth - 1)
+    return best
+
+
+def _has_nonfinite(v: Any) -> bool:
+    if isinstance(v, float):
+        return v != v or v in (float('inf'), float('-inf'))
+    if isinstance(v, list):
+        return any(_has_nonfinite(x) for x in v)
+    if isinstance(v, dict):
+        return any(_has_nonfinite(x) for x in v.values())
+    return False
+
+
+def outside_quantifier(w: World, text: str) -> bool:
+    """Texts the properties do not quantify over: nesting beyond 64 levels; number literals that overflow to
+    a non-finite float (a method echoing such a value does not return a JSON-encodable value)."""
+    if max_nesting(text) > 64:
+        w.probe('skipped.nesting_beyond_64')
+        return True
+    try:
+        doc = json.loads(text)
+    except (ValueError, RecursionError):
+        return False
+    if _has_nonfinite(doc):
+        w.probe('skipped.nonfinite_number')
+        return True
+    return False
